@@ -462,6 +462,12 @@ class Forest(object):
                     # one of the element's own children is part of the new list
                     new.insert(0, parent.children.list[op['own'] % len(parent.children.list)])
                     tag += ':own'
+                for at, ref in enumerate(op.get('steal2', ())):
+                    other = self.resolve(ref)
+                    if other.parent is not None and other.parent is not parent and type(other).__name__ == child_cls and \
+                            not self._is_ancestor(other, parent) and other not in self.msgs and not any(x is other for x in new):
+                        new.insert(min(at, len(new)), other)
+                        tag = tag.replace(':taken-two', '').replace(':taken', '') + (':taken-two' if ':taken' in tag else ':taken')
                 if op.get('steal') is not None:
                     # so is a child that sits in another element (of the same kind of parent, so that it may fit)
                     other = self.resolve(op['steal'])
@@ -766,6 +772,29 @@ def histories(draw, cells, max_ops):
         ops += [{'op': 'add_x', 'parent': P, 'k': k, 'foreign': False} for k in seq]
         ops.append({'op': 'assign_existing', 'parent': P, 'child': {'r': R0, 'p': [-1, draw(st.integers(0, len(seq) - 1))]},
                     'how': draw(st.sampled_from(['index', 'index', 'name'])), 'i': draw(st.integers(-3, 3))})
+    if draw(st.integers(0, 7)) == 0:
+        # scenario seed: two free segments of one name, version and level, each with the same fields; then a field of the
+        # first is assigned (as an element, not as a copy) over a field of the second - by name or by index, over the first or a
+        # later repetition: it must leave the first segment and take the replaced field's place
+        lvl = draw(st.sampled_from([TOL, TOL, STRICT]))
+        nk = draw(st.integers(0, 5))
+        ops += [{'op': 'new', 'cls': 'Segment', 'name_k': nk, 'lvl': lvl, 'ver_k': 0, 'val_k': None} for _ in range(2)]
+        ks = [draw(st.integers(0, 4)) for _ in range(draw(st.integers(2, 4)))]
+        for r in (-2, -1):
+            ops += [{'op': 'add_x', 'parent': {'r': r, 'p': []}, 'k': k, 'foreign': False} for k in ks]
+        ops.append({'op': 'assign_existing', 'parent': {'r': -1, 'p': []}, 'child': {'r': -2, 'p': [draw(st.integers(0, len(ks) - 1))]},
+                    'how': draw(st.sampled_from(['name', 'index'])), 'i': draw(st.integers(0, 1))})
+        if draw(st.booleans()):
+            # ... and two of them handed over at once in a wholesale replacement that is refused
+            ops.append({'op': 'set_children', 'parent': {'r': -1, 'p': []}, 'n': 0, 'k': 0, 'bad': draw(st.integers(1, 2)),
+                        'steal2': [{'r': -2, 'p': [0]}, {'r': -2, 'p': [1]}]})
+    if draw(st.integers(0, 9)) == 0:
+        # scenario seed: a free component gets a sub-component that has no name of its own (it goes by its datatype) and no
+        # value yet; then the datatype of the sub-component, or of the component above it, is changed
+        ops.append({'op': 'new', 'cls': 'Component', 'name_k': draw(st.integers(0, 9)), 'lvl': TOL, 'ver_k': 0, 'val_k': None})
+        ops.append({'op': 'ctor', 'parent': {'r': -1, 'p': []}, 'k': 0, 'named': False, 'dt': draw(st.sampled_from([0, 2, 2, 3])),
+                    'mismatch': 0, 'val': None})
+        ops.append({'op': 'datatype', 'target': {'r': -1, 'p': draw(st.sampled_from([[], [0], [0]]))}, 'k': draw(st.integers(0, 7))})
     for op in drawn:
         if op['op'] == 'add_x_twice':       # two children of the same name: two plain operations
             ops += [dict(op, op='add_x', foreign=False), dict(op, op='add_x', foreign=False)]
